@@ -23,6 +23,10 @@ template<class V> struct vspan { const V* b; const V* e; const V* begin() const 
  W void push_back_##I(char* p, size_t cap, uint8_t v){ D_##I d{p, cap}; d.push_back((V)v); } \
  W void pop_back_##I(char* p, size_t cap){ D_##I d{p, cap}; d.pop_back(); } \
  W int64_t insert1_##I(char* p, size_t cap, size_t pos, uint8_t v){ D_##I d{p, cap}; auto it = d.insert(d.begin() + pos, (V)v); return (const char*)it - p; } \
+ W int64_t insert1a_##I(char* p, size_t cap, size_t pos, size_t j){ D_##I d{p, cap}; auto it = d.insert(d.begin() + pos, d[(typename D_##I::size_type)j]); return (const char*)it - p; } \
+ W void pushbacka_##I(char* p, size_t cap, size_t j){ D_##I d{p, cap}; d.push_back(d[(typename D_##I::size_type)j]); } \
+ W void resizeva_##I(char* p, size_t cap, uint64_t n, size_t j){ D_##I d{p, cap}; d.resize((typename D_##I::size_type)n, d[(typename D_##I::size_type)j]); } \
+ W void assignna_##I(char* p, size_t cap, uint64_t c, size_t j){ D_##I d{p, cap}; d.assign((typename D_##I::size_type)c, d[(typename D_##I::size_type)j]); } \
  W int64_t insertn_##I(char* p, size_t cap, size_t pos, uint64_t c, uint8_t v){ D_##I d{p, cap}; auto it = d.insert(d.begin() + pos, (typename D_##I::size_type)c, (V)v); return (const char*)it - p; } \
  W int64_t insertfw_##I(char* p, size_t cap, size_t pos, const char* s, size_t k){ D_##I d{p, cap}; auto it = d.insert(d.begin() + pos, (const V*)s, (const V*)s + k); return (const char*)it - p; } \
  W int64_t insertin_##I(char* p, size_t cap, size_t pos, const char* s, size_t k){ D_##I d{p, cap}; auto it = d.insert(d.begin() + pos, in_it<V>{s}, in_it<V>{s + k}); return (const char*)it - p; } \
@@ -123,6 +127,13 @@ def harness(u, inst, cap, checked):
           else CALL(assignil3_%(I)s(view, VS, s));
           break;
   case 17: NL = 0; CALL(clear_%(I)s(view, VS)); break;
+  /* arguments that alias an element of the array itself (valid for std::vector: the value is taken before the array changes) */
+  case 19: VASSUME(L + 1 <= CAP && pos2 < L); NL = L + 1; eret = LSZ + pos;
+          for (unsigned i = 0; i < CAP; i++) exp[i] = i < pos ? opay[i] : (i == pos ? opay[pos2] : opay[i ? i - 1 : 0]);
+          CALL(ret = insert1a_%(I)s(view, VS, pos, pos2)); break;
+  case 20: VASSUME(L + 1 <= CAP && pos2 < L); NL = L + 1; exp[L] = opay[pos2]; CALL(pushbacka_%(I)s(view, VS, pos2)); break;
+  case 21: VASSUME(pos2 < L); NL = cnt; for (unsigned i = 0; i < CAP; i++) exp[i] = i < L ? opay[i] : opay[pos2]; CALL(resizeva_%(I)s(view, VS, cnt, pos2)); break;
+  case 22: VASSUME(pos2 < L); NL = cnt; for (unsigned i = 0; i < CAP; i++) exp[i] = opay[pos2]; CALL(assignna_%(I)s(view, VS, cnt, pos2)); break;
   default: {
       VASSUME(which == 18);
       u64 sz = 0, sb = 0; _Bool em = 0; i64 bo = 0, eo = 0, dof = 0; u8 fr = 0, bk = 0, at = 0;
